@@ -33,11 +33,12 @@ use std::time::Duration;
 pub const DEF: PropDef = PropDef {
     id: "C18",
     level: "exploration",
-    rule: "cases = (positive program of <=2 rules from a 24-rule core: 1-2 premises, constants, repeated variables, variable predicates, two conclusions, non-recursive / linear / doubly / mutually recursive) x (fact set of <=4 triples of a 10-triple universe, plus p-chains of 5/6/8 edges for deep derivations) x (every goal shape over {constants a,c,p,q; variable slots} incl. repeated variable, variable predicate and ground goals: 37 shapes) x (namings of the slots from {x,X,Y,v0,v1,v2}). quick: 24 single rules + 42 ordered pairs of a 7-rule sub-core, each with every fact set of <=2 triples + 14 curated sets of 3-4, namings with the plain names in fixed order (4/13/34 per 1/2/3 slots, 235 goals per batch). thorough: single rules x every fact set of <=4 and the 30 ordered pairs of a 6-rule sub-core x every fact set of <=3 (+curated 4-sets), both with every injective naming (6/30/120, 512 goals per batch); the other 522 ordered pairs x fact sets of <=2 (+curated) with the fixed-plain-order namings. Each goal is run through Reasoner::backward_chaining and read back with resolve_term on the goal's terms; oracle = naive least model with stages: every answer is a ground model fact, every matching model fact of stage<=5 is answered, the answer set is the same for every naming of one shape. Goal shapes whose predicted SLD cost exceeds the step cap are skipped (counted under skipped_*, never judged). evaluations = goals executed; non-trivial = (program, fact set) pair for which some executed goal must return a derived fact; distinct = distinct such pairs; outcomes = distinct answer sets",
+    rule: "cases = (positive program of <=2 rules from a 24-rule core: 1-2 premises, constants, repeated variables, variable predicates, two conclusions, non-recursive / linear / doubly / mutually recursive) x (fact set of <=4 triples of a 10-triple universe, plus p-chains of 5/6/8 edges for deep derivations) x (every goal shape over {constants a,c,p,q; variable slots} incl. repeated variable, variable predicate and ground goals: 37 shapes) x (namings of the slots from {x,X,Y,v0,v1,v2}). quick: 24 single rules + 42 ordered pairs of a 7-rule sub-core, each with every fact set of <=2 triples + 14 curated sets of 3-4, namings with the plain names in fixed order (4/13/34 per 1/2/3 slots, 235 goals per batch). thorough: single rules x every fact set of <=4 and the 30 ordered pairs of a 6-rule sub-core x every fact set of <=3 (+curated 4-sets), both with every injective naming (6/30/120, 512 goals per batch); the other 522 ordered pairs x fact sets of <=2 (+curated) with the fixed-plain-order namings. Each goal is run through Reasoner::backward_chaining and read back with resolve_term on the goal's terms; oracle = naive least model with stages: every answer is a ground model fact, every matching model fact of stage<=5 is answered, the answer set is the same for every naming of one shape. Goal shapes whose predicted SLD cost exceeds the step cap are skipped (counted under skipped_*, never judged). evaluations = goals executed; non-trivial = (program, fact set) pair for which some executed goal must return a derived fact; distinct = distinct such pairs; outcomes = distinct answer sets. FURTHER FAMILIES (all tiers): 'deep' = p-chains of 9/10/11 edges under right-linear recursion (programs [copy, right-linear] in both orders), 24 goal shapes over the chain ends {c0,c2} x {q} x {c9,c10,c11}, own step cap 60000 (cost is O(length^2), nothing is skipped), completeness demanded up to stage 9 (one level below the engine's own bound), stage 10/11 answers only checked for soundness, base + extended namings; 'names' = each of the 24 single rules x fact sets of <=1 (thorough <=2) + the 14 curated sets, every shape under the plain naming and the extended naming alphabet {y,z,r (names used inside the rules), v3, v10, v01} (fixed-order rule: y,z,r in that order, the engine-like ones in every arrangement) plus mixed pairs/triples with prefix-related or numerically equal names (v1/v10, v0/v01, v01/v1); 'shapes' = 17 programs outside the core (three premises incl. a variable predicate in the middle, ground conclusion, fully ground rule, ground + non-ground conclusions, a rule written with ?v10/?v3, three-rule programs incl. mutual recursion, and 7 programs with filters between two variables =/!= incl. inside a recursion) x fact sets of <=1 + curated (thorough: <=3 + curated 4-sets); 'quoted' = 5 rule sets with quoted-triple terms in the conclusion (incl. one that nests its own conclusions and two written with v<n> names) x 4 fact sets x 8 linear goal shapes with quoted triples (nested twice, in subject and object, variable predicate inside the quotation) x every injective naming of the <=4 slots over {x,X,Y,Z,v0,v1,v10}: judged only by panic-freedom and by identity of the answers (values of the goal's variables, resolved deeply) with those of the plain naming - no reference model is involved. Rules with filters are judged against the least model in which a rule instance whose filter fails derives nothing (what evaluate_filters does in every forward strategy); an unsound answer additionally gets the differential tag explained_by=filters_ignored iff it lies in the least model of the program with all filters deleted",
     assumptions: &[
         "universe: individuals a,b,c,d (chains: c0..c8), predicates p,q; goal constants {a,c} and {p,q} (chains: c0,c2 / c3,c5); goal variable names {x,X,Y,v0,v1,v2} (x is also a variable name used inside the rules)",
-        "only safe positive rules without filters are generated (the property quantifies over safe rule sets)",
-        "completeness is demanded for stage<=5 only (engine bound: depth<=MAX_DEPTH=10 with depth = rule nesting of the goal)",
+        "only safe positive rules are generated (the property quantifies over safe rule sets); filters only between two variables of the rule body with = / != (the one filter form whose meaning does not depend on the values: evaluate_filters compares two bound variables by dictionary id); negation is not generated (a least model presupposes a positive program)",
+        "completeness is demanded for stage<=5 only (engine bound: depth<=MAX_DEPTH=10 with depth = rule nesting of the goal); in the deep family for stage<=9: a fact of stage s needs goals at depths 0..=s and only depth>10 is cut, so stage 9 keeps one level of margin under every reading of 'depth' (counting rule applications, or counting goal levels including the fact lookup)",
+        "quoted family: only linear goals (no variable twice) - unify_terms has no occurs check and a goal repeating a variable across a quotation boundary overflows the stack of the process (observation, outside the statement); facts cannot contain quoted triples here (Triple is three dictionary ids), so answers arise only through rules whose conclusion carries the quotation; unbound engine-internal variables inside an answer are rendered as ?_ (their names are the engine's business), unbound goal variables by slot number",
         "reference model: reference/datalog_pos.rs (self-tested); cost model SldCost (names-apart copy of the search, step cap 600 quick / 800 thorough) only decides skipping, never a verdict; the subject is about 2 us per predicted step and its cost is doubly exponential in the depth bound for left/doubly recursive programs",
         "answers are compared as sets of ground triples (the engine returns duplicates and internal variables by design)",
     ],
@@ -49,6 +50,12 @@ pub const DEF: PropDef = PropDef {
 
 /// completeness is demanded up to this stage (engine bound is 10)
 const STAGE_BOUND: usize = 5;
+/// ... and up to this stage in the "deep" family (one level of margin against the engine's own bound:
+/// a fact of stage s needs goals at depths 0..=s, and only depth > MAX_DEPTH = 10 is cut)
+const STAGE_BOUND_DEEP: usize = 9;
+/// step cap of the "deep" family: right-linear recursion over a chain costs O(length^2) steps per goal,
+/// there is no blow-up to protect against
+const STEP_CAP_DEEP: u64 = 60_000;
 /// depth bound used by the cost model (mirrors the subject's private MAX_DEPTH; only influences skipping)
 const MODEL_MAX_DEPTH: usize = 10;
 const STEP_CAP_QUICK: u64 = 600;
@@ -59,6 +66,13 @@ const HARD_TIMEOUT_S: u64 = 20;
 /// variable name used inside the rules), then names the engine generates itself
 const NAMES: [&str; 6] = ["x", "X", "Y", "v0", "v1", "v2"];
 const N_PLAIN: usize = 3;
+/// extended naming alphabet: the other names used inside the rules (y, z and the predicate variable r),
+/// engine-like names off the beaten track (v3: leaves v0..v2 free; v10: multi-digit; v01: parses to 1 but
+/// is not the generated name v1)
+const NAMES_EXT: [&str; 6] = ["y", "z", "r", "v3", "v10", "v01"];
+/// mixed pairs / triples with prefix-related and numerically equal engine-like names
+const NAMES_EXT_MIXED2: [[&str; 2]; 6] = [["v1", "v10"], ["v10", "v1"], ["v0", "v01"], ["v01", "v1"], ["x", "v10"], ["v3", "Y"]];
+const NAMES_EXT_MIXED3: [[&str; 3]; 3] = [["v1", "v10", "v01"], ["v10", "v0", "v3"], ["y", "v2", "v10"]];
 
 /// The rule core. Variables ?x ?y ?z, predicate variable ?r.
 const CORE: [&str; 24] = [
@@ -111,6 +125,32 @@ const CURATED: [&[usize]; 14] = [
     &[0, 4, 6, 9],
     &[1, 3, 7, 8],
     &[2, 5, 8, 9],
+];
+
+/// Programs outside the 24-rule core (family "shapes"): (rules, also run the extended namings?)
+const EXTRA_PROGRAMS: [(&[&str], bool); 17] = [
+    // three premises (the rule loop of the engine is generic in the number of premises)
+    (&["?x q ?w :- ?x p ?y, ?y p ?z, ?z p ?w"], false),
+    (&["?x q ?w :- ?x p ?y, ?y ?r ?z, ?z p ?w"], false),
+    (&["?x q ?y :- ?x p ?y, ?y p ?z, ?z p ?x"], false),
+    // ground conclusion / fully ground rule / ground and non-ground conclusion
+    (&["a q b :- ?x p ?y"], false),
+    (&["a q b :- a p b"], false),
+    (&["a q b, ?x q ?x :- ?x p ?y"], false),
+    // rule written with multi-digit engine-like names, goals named alike
+    (&["?v10 q ?v3 :- ?v3 p ?v10"], true),
+    // three rules
+    (&["?x q ?y :- ?x p ?y", "?x q ?z :- ?x p ?y, ?y p ?z", "?x q ?w :- ?x p ?y, ?y p ?z, ?z p ?w"], false),
+    (&["?x q ?y :- ?x p ?y", "?y p ?x :- ?x q ?y", "?x q ?z :- ?x p ?y, ?y q ?z"], false),
+    (&["?x q ?y :- ?x p ?y", "?x p ?y :- ?x q ?y", "?y q ?x :- ?x q ?y"], false),
+    // filters between two variables (= / !=): a rule instance whose filter fails derives nothing
+    (&["?x q ?y :- ?x p ?y | ?x != ?y"], false),
+    (&["?x q ?y :- ?x p ?y | ?x = ?y"], false),
+    (&["?x q ?z :- ?x p ?y, ?y p ?z | ?x != ?z"], false),
+    (&["?x q ?z :- ?x p ?y, ?y p ?z | ?x != ?z, ?y != ?z"], false),
+    (&["?y q ?x :- ?x ?r ?y | ?x != ?y"], false),
+    (&["?x q ?y :- ?x p ?y | ?x != ?y", "?x q ?z :- ?x p ?y, ?y q ?z"], false),
+    (&["?x q ?y :- ?x p ?y", "?x q ?z :- ?x p ?y, ?y q ?z | ?x != ?z"], false),
 ];
 
 fn fact_sets(max: usize) -> Vec<Vec<usize>> {
@@ -200,12 +240,36 @@ fn nslots(sh: &Shape) -> usize {
 /// assignment in which the plain names are used in the fixed order x, X, Y (slots named like engine
 /// variables still take v0, v1, v2 in every arrangement) - 4 / 13 / 34 namings instead of 6 / 30 / 120.
 fn namings(k: usize, full: bool) -> Vec<Vec<&'static str>> {
+    namings_from(&NAMES, k, full)
+}
+
+/// Namings run for a shape of k slots: the base list (plain naming first), then - if `ext` - the same
+/// construction over NAMES_EXT (fixed-order rule: y, z, r in that order, v3/v10/v01 in every arrangement)
+/// plus the mixed pairs / triples.
+fn namings_ext(k: usize, full: bool, ext: bool, base_plain_only: bool) -> Vec<Vec<&'static str>> {
+    let mut v = namings(k, full);
+    if base_plain_only {
+        v.truncate(1);
+    }
+    if ext && k > 0 {
+        v.extend(namings_from(&NAMES_EXT, k, false));
+        if k == 2 {
+            v.extend(NAMES_EXT_MIXED2.iter().map(|m| m.to_vec()));
+        }
+        if k == 3 {
+            v.extend(NAMES_EXT_MIXED3.iter().map(|m| m.to_vec()));
+        }
+    }
+    v
+}
+
+fn namings_from(names: &[&'static str; 6], k: usize, full: bool) -> Vec<Vec<&'static str>> {
     let mut out: Vec<Vec<&'static str>> = vec![vec![]];
     for _ in 0..k {
         let mut next = Vec::new();
         for n in &out {
-            let plain_used = n.iter().filter(|x| NAMES[..N_PLAIN].contains(x)).count();
-            for (ni, name) in NAMES.iter().enumerate() {
+            let plain_used = n.iter().filter(|x| names[..N_PLAIN].contains(x)).count();
+            for (ni, name) in names.iter().enumerate() {
                 if n.contains(name) {
                     continue;
                 }
@@ -480,7 +544,12 @@ fn build_reasoner(rules: &[Rule], facts: &[Fact], goals: &[Atom]) -> (Reasoner, 
     for rule in rules {
         let premise = rule.premise.iter().map(|a| conv(&mut r, a, &mut ids)).collect();
         let conclusion = rule.conclusion.iter().map(|a| conv(&mut r, a, &mut ids)).collect();
-        r.add_rule(shared::rule::Rule { premise, negative_premise: vec![], filters: vec![], conclusion });
+        let filters = rule
+            .filters
+            .iter()
+            .map(|f| shared::rule::FilterCondition { variable: f.left.clone(), operator: if f.equal { "=" } else { "!=" }.to_string(), value: f.right.clone() })
+            .collect();
+        r.add_rule(shared::rule::Rule { premise, negative_premise: vec![], filters, conclusion });
     }
     for g in goals {
         for t in g {
@@ -587,34 +656,60 @@ impl Subject {
 struct Verdict {
     symptom: &'static str,
     detail: String,
+    /// structural facts about this verdict (computed differentially, never from a list of known bugs)
+    extra_tags: Vec<String>,
+}
+
+/// What a goal is judged against: the least model of the program, the stage bound of the family, and
+/// (for programs with filters) the least model of the same program with every filter deleted - only
+/// used to tag an unsound answer as "explained by ignoring the filters".
+struct Reference<'a> {
+    model: &'a BTreeMap<Fact, usize>,
+    stage_bound: usize,
+    model_without_filters: Option<&'a BTreeMap<Fact, usize>>,
+}
+
+fn strip_filters(rules: &[Rule]) -> Vec<Rule> {
+    rules.iter().map(|r| Rule { premise: r.premise.clone(), conclusion: r.conclusion.clone(), filters: vec![] }).collect()
+}
+
+fn has_filters(rules: &[Rule]) -> bool {
+    rules.iter().any(|r| !r.filters.is_empty())
 }
 
 /// Judge one observation against the least model. `expected` = model facts matching the goal with
 /// their stage (independent of the naming). `plain` = observation of the plain naming of the same
 /// shape (None when this *is* the plain naming).
-fn judge(obs: &Result<Obs, String>, model: &BTreeMap<Fact, usize>, expected: &[(Fact, usize)], plain: Option<&Result<Obs, String>>) -> Vec<Verdict> {
+fn judge(obs: &Result<Obs, String>, rf: &Reference, expected: &[(Fact, usize)], plain: Option<&Result<Obs, String>>) -> Vec<Verdict> {
+    let model = rf.model;
     let mut v = Vec::new();
     let obs = match obs {
         Ok(o) => o,
         Err(e) => {
-            v.push(Verdict { symptom: "panic", detail: format!("backward_chaining panicked: {}", e) });
+            v.push(Verdict { symptom: "panic", detail: format!("backward_chaining panicked: {}", e), extra_tags: vec![] });
             return v;
         }
     };
     // soundness: every answer applied to the goal is a ground fact of the least model
     let unsound: Vec<&Fact> = obs.answers.iter().filter(|f| !model.contains_key(*f)).collect();
     if !unsound.is_empty() {
-        v.push(Verdict { symptom: "unsound_answer", detail: format!("answers not in the least model: {:?}", unsound.iter().map(|f| dl::show_fact(f)).collect::<Vec<_>>()) });
+        let mut extra = Vec::new();
+        if let Some(nf) = rf.model_without_filters {
+            extra.push(if unsound.iter().all(|f| nf.contains_key(*f)) { "explained_by=filters_ignored".to_string() } else { "not_explained_by_ignoring_filters".to_string() });
+        }
+        v.push(Verdict { symptom: "unsound_answer", detail: format!("answers not in the least model: {:?}", unsound.iter().map(|f| dl::show_fact(f)).collect::<Vec<_>>()), extra_tags: extra });
     }
     if !obs.nonground.is_empty() {
-        v.push(Verdict { symptom: "nonground_answer", detail: format!("answers applied to the goal are not ground: {:?}", obs.nonground) });
+        v.push(Verdict { symptom: "nonground_answer", detail: format!("answers applied to the goal are not ground: {:?}", obs.nonground), extra_tags: vec![] });
     }
     // completeness within the stage bound
-    let missing: Vec<String> = expected.iter().filter(|(f, st)| *st <= STAGE_BOUND && !obs.answers.contains(f)).map(|(f, st)| format!("{} (stage {})", dl::show_fact(f), st)).collect();
+    let missing: Vec<String> = expected.iter().filter(|(f, st)| *st <= rf.stage_bound && !obs.answers.contains(f)).map(|(f, st)| format!("{} (stage {})", dl::show_fact(f), st)).collect();
     if !missing.is_empty() {
+        let shallowest = expected.iter().filter(|(f, st)| *st <= rf.stage_bound && !obs.answers.contains(f)).map(|x| x.1).min().unwrap_or(0);
         v.push(Verdict {
             symptom: "missing_answer",
-            detail: format!("model facts matching the goal within stage {} not returned: {:?}; returned: {:?}", STAGE_BOUND, missing, obs.answers.iter().map(dl::show_fact).collect::<Vec<_>>()),
+            detail: format!("model facts matching the goal within stage {} not returned: {:?}; returned: {:?}", rf.stage_bound, missing, obs.answers.iter().map(dl::show_fact).collect::<Vec<_>>()),
+            extra_tags: vec![if shallowest > STAGE_BOUND { format!("only_missing_beyond_stage_{}", STAGE_BOUND) } else { format!("missing_within_stage_{}", STAGE_BOUND) }],
         });
     }
     // whatever the variables are called: same answer set as the plain naming of the same goal
@@ -628,6 +723,7 @@ fn judge(obs: &Result<Obs, String>, model: &BTreeMap<Fact, usize>, expected: &[(
                         obs.answers.iter().map(dl::show_fact).collect::<Vec<_>>(),
                         p.answers.iter().map(dl::show_fact).collect::<Vec<_>>()
                     ),
+                    extra_tags: vec![],
                 });
             }
         }
@@ -645,6 +741,18 @@ fn case_json(rules: &[Rule], facts: &[Fact], goal: &Atom) -> Value {
         "facts": facts.iter().map(dl::show_fact).collect::<Vec<_>>(),
         "goal": dl::show_atom(goal),
     })
+}
+
+/// case record of a batch with non-default bounds (replay reads them back)
+fn case_json_b(rules: &[Rule], facts: &[Fact], goal: &Atom, bo: &BatchOpts) -> Value {
+    let mut v = case_json(rules, facts, goal);
+    if bo.stage_bound != STAGE_BOUND {
+        v["stage_bound"] = json!(bo.stage_bound);
+    }
+    if bo.step_cap > STEP_CAP_THOROUGH {
+        v["step_cap"] = json!(bo.step_cap);
+    }
+    v
 }
 
 /// Structural facts about a failing case (never derived from a list of known bugs).
@@ -676,14 +784,35 @@ fn tags_for(rules: &[Rule], goal: &Atom, plain_ok: Option<bool>) -> Vec<String> 
     if rules.iter().any(|r| r.premise.iter().chain(r.conclusion.iter()).any(|a| a[1].is_var())) {
         tags.push("rule_var_predicate".to_string());
     }
+    tags.push(if has_filters(rules) { "rule_has_filter".to_string() } else { "rules_without_filter".to_string() });
+    if rules.iter().any(|r| r.premise.len() >= 3) {
+        tags.push("rule_3plus_premises".to_string());
+    }
     tags
 }
 
+/// How one (program, fact set) batch is enumerated and judged.
+struct BatchOpts<'a> {
+    shapes: &'a [Shape],
+    /// every injective naming over NAMES (else the fixed-plain-order subset)
+    full_namings: bool,
+    /// additionally the extended naming alphabet (NAMES_EXT + mixed pairs / triples)
+    ext_namings: bool,
+    /// of the base namings only the plain one (the reference of the renaming clause) is run
+    base_plain_only: bool,
+    step_cap: u64,
+    stage_bound: usize,
+    family: &'a str,
+}
+
 /// One (program, fact set) batch: every goal shape x naming. Returns false if the shard must stop.
-#[allow(clippy::too_many_arguments)]
-fn run_batch(subject: &Subject, out: &mut ShardOut, rules: &[Rule], facts: &[Fact], shapes: &[Shape], full_namings: bool, step_cap: u64, family: &str, batch_key: u64) -> bool {
+fn run_batch(subject: &Subject, out: &mut ShardOut, rules: &[Rule], facts: &[Fact], bo: &BatchOpts, batch_key: u64) -> bool {
+    let (shapes, step_cap, family) = (bo.shapes, bo.step_cap, bo.family);
     let fset: BTreeSet<Fact> = facts.iter().cloned().collect();
     let model = dl::least_model(&fset, rules);
+    let filtered = has_filters(rules);
+    let model_nf = if filtered { Some(dl::least_model(&fset, &strip_filters(rules))) } else { None };
+    let rf = Reference { model: &model, stage_bound: bo.stage_bound, model_without_filters: model_nf.as_ref() };
     let max_stage = model.values().copied().max().unwrap_or(0);
     out.max("max_stage_in_a_model", max_stage as u64);
     let recursive = is_recursive(rules);
@@ -695,15 +824,29 @@ fn run_batch(subject: &Subject, out: &mut ShardOut, rules: &[Rule], facts: &[Fac
     if model.len() > fset.len() {
         out.count("batches_with_derived_facts", 1);
     }
+    if filtered {
+        out.count("batches_with_filter_rules", 1);
+        if model_nf.as_ref().map_or(false, |m| m.len() > model.len()) {
+            // vacuity: some rule instance is really cut by a filter on this fact set
+            out.count("batches_where_a_filter_cuts_a_derivation", 1);
+        }
+    }
+    if rules.iter().any(|r| r.premise.len() >= 3) {
+        out.count("batches_with_3_premise_rule", 1);
+    }
+    if rules.len() >= 3 {
+        out.count("batches_with_3_rules", 1);
+    }
     // which shapes are run
     let mut goals: Vec<Atom> = Vec::new();
     let mut index: Vec<(usize, usize)> = Vec::new(); // (shape index, naming index)
     let mut expected: HashMap<usize, Vec<(Fact, usize)>> = HashMap::new();
     for (si, sh) in shapes.iter().enumerate() {
-        let nn = namings(nslots(sh), full_namings);
+        let nn = namings_ext(nslots(sh), bo.full_namings, bo.ext_namings, bo.base_plain_only);
         match SldCost::cost(rules, &fset, sh, step_cap) {
             Some(c) => {
                 out.max("max_predicted_steps_of_an_executed_goal", c);
+                out.max(&format!("max_predicted_steps_{}", family), c);
                 out.count("predicted_steps_executed", c * nn.len() as u64);
                 expected.insert(si, expected_for(&name_shape(sh, &nn[0]), &model));
                 for (ni, n) in nn.iter().enumerate() {
@@ -713,6 +856,7 @@ fn run_batch(subject: &Subject, out: &mut ShardOut, rules: &[Rule], facts: &[Fac
             }
             None => {
                 out.count("skipped_shapes_over_step_cap", 1);
+                out.count(&format!("skipped_shapes_over_step_cap_{}", family), 1);
                 out.count("skipped_goals_over_step_cap", nn.len() as u64);
                 if !recursive {
                     out.count("skipped_goals_nonrecursive_program", nn.len() as u64);
@@ -742,10 +886,11 @@ fn run_batch(subject: &Subject, out: &mut ShardOut, rules: &[Rule], facts: &[Fac
     for (gi, goal) in goals.iter().enumerate() {
         let (si, ni) = index[gi];
         out.evaluations += 1;
+        out.count(&format!("goals_{}", family), 1);
         let exp = &expected[&si];
         let plain_gi = plain_of_shape[&si];
         let plain = if ni == 0 { None } else { Some(&obs[plain_gi]) };
-        let verdicts = judge(&obs[gi], &model, exp, plain);
+        let verdicts = judge(&obs[gi], &rf, exp, plain);
         if !exp.is_empty() {
             out.count("goals_with_expected_answers", 1);
         }
@@ -757,9 +902,29 @@ fn run_batch(subject: &Subject, out: &mut ShardOut, rules: &[Rule], facts: &[Fac
                 out.count("goals_with_derived_answers_recursive_program", 1);
             }
         }
+        let (_, gnames) = shape_of(goal);
+        if gnames.iter().any(|n| NAMES_EXT.contains(&n.as_str())) {
+            out.count("goals_with_extended_names", 1);
+            if derived > 0 {
+                out.count("goals_with_extended_names_and_derived_answers", 1);
+            }
+        }
         if ni == 0 {
             for (_, st) in exp {
                 out.count(&format!("expected_answers_of_plain_goals_stage_{}", st), 1);
+                if *st > STAGE_BOUND && *st <= bo.stage_bound {
+                    out.count("expected_answers_demanded_beyond_stage_5", 1);
+                }
+            }
+            if let (Some(nf), Ok(o)) = (&model_nf, &obs[gi]) {
+                // vacuity of the filter family: goals for which ignoring the filters would add an answer
+                let cut = dl::matching(goal, nf.keys()).into_iter().filter(|(f, _)| !model.contains_key(f)).count();
+                if cut > 0 {
+                    out.count("plain_goals_where_a_filter_cuts_an_answer", 1);
+                    if o.answers.iter().all(|f| model.contains_key(f)) {
+                        out.count("plain_goals_where_the_engine_respects_the_filter", 1);
+                    }
+                }
             }
         }
         if let Ok(o) = &obs[gi] {
@@ -769,7 +934,7 @@ fn run_batch(subject: &Subject, out: &mut ShardOut, rules: &[Rule], facts: &[Fac
             }
             out.outcome(&o.answers);
             if derived > 0 && (batch_key * 31 + gi as u64) % 4999 == 0 {
-                out.sample(json!({"case": case_json(rules, facts, goal), "answers": o.answers.iter().map(dl::show_fact).collect::<Vec<_>>(), "bindings_returned": o.raw, "max_stage_of_model": max_stage}));
+                out.sample(json!({"case": case_json_b(rules, facts, goal, bo), "family": family, "answers": o.answers.iter().map(dl::show_fact).collect::<Vec<_>>(), "bindings_returned": o.raw, "max_stage_of_model": max_stage}));
             }
         }
         if !verdicts.is_empty() {
@@ -798,20 +963,325 @@ fn run_batch(subject: &Subject, out: &mut ShardOut, rules: &[Rule], facts: &[Fac
         }
         let (si, ni) = index[gi];
         let plain_gi = plain_of_shape[&si];
-        let plain_ok = if ni == 0 { None } else { Some(judge(&obs[plain_gi], &model, &expected[&si], None).is_empty()) };
+        let plain_ok = if ni == 0 { None } else { Some(judge(&obs[plain_gi], &rf, &expected[&si], None).is_empty()) };
         for vd in verdicts {
-            out.fail(case_json(rules, facts, goal), vd.symptom, vd.detail, tags_for(rules, goal, plain_ok));
+            let mut tags = tags_for(rules, goal, plain_ok);
+            tags.extend(vd.extra_tags.iter().cloned());
+            out.fail(case_json_b(rules, facts, goal, bo), vd.symptom, vd.detail, tags);
         }
     }
     true
+}
+
+// ---------------------------------------------------------------------------------------------
+// family "quoted": goals and rules with quoted-triple terms (RDF-star). No reference model: judged
+// only by what the statement says about names - the answers must not depend on what the goal's
+// variables are called - and by panic-freedom. Crosses the QuotedTriple arms of unify_terms,
+// substitute_term, rename_term and first_free_variable_index::scan.
+// ---------------------------------------------------------------------------------------------
+#[derive(Clone, Debug, PartialEq, Eq)]
+enum QT {
+    C(String),
+    V(String),
+    Q(Box<[QT; 3]>),
+}
+type QAtom = [QT; 3];
+type QRule = (Vec<QAtom>, Vec<QAtom>); // conclusions, premises
+
+/// terms separated by white space; `<<` and `>>` are tokens of their own
+fn q_term(tok: &[&str], i: &mut usize) -> QT {
+    let t = tok[*i];
+    *i += 1;
+    if t == "<<" {
+        let a = q_term(tok, i);
+        let b = q_term(tok, i);
+        let c = q_term(tok, i);
+        assert_eq!(tok[*i], ">>", "quoted triple not closed");
+        *i += 1;
+        QT::Q(Box::new([a, b, c]))
+    } else if let Some(v) = t.strip_prefix('?') {
+        QT::V(v.to_string())
+    } else {
+        QT::C(t.to_string())
+    }
+}
+
+fn q_atom(s: &str) -> QAtom {
+    let tok: Vec<&str> = s.split_whitespace().collect();
+    let mut i = 0;
+    let a = [q_term(&tok, &mut i), q_term(&tok, &mut i), q_term(&tok, &mut i)];
+    assert!(i == tok.len(), "trailing tokens in {:?}", s);
+    a
+}
+
+fn q_rule(s: &str) -> QRule {
+    let (h, b) = s.split_once(":-").unwrap_or_else(|| panic!("rule needs ':-': {:?}", s));
+    (h.split(',').map(|a| q_atom(a.trim())).collect(), b.split(',').map(|a| q_atom(a.trim())).collect())
+}
+
+fn q_show(t: &QT) -> String {
+    match t {
+        QT::C(c) => c.clone(),
+        QT::V(v) => format!("?{}", v),
+        QT::Q(q) => format!("<< {} {} {} >>", q_show(&q[0]), q_show(&q[1]), q_show(&q[2])),
+    }
+}
+
+fn q_show_atom(a: &QAtom) -> String {
+    format!("{} {} {}", q_show(&a[0]), q_show(&a[1]), q_show(&a[2]))
+}
+
+/// variable names in first-occurrence order (depth first)
+fn q_vars(a: &QAtom) -> Vec<String> {
+    fn walk(t: &QT, out: &mut Vec<String>) {
+        match t {
+            QT::C(_) => {}
+            QT::V(v) => {
+                if !out.contains(v) {
+                    out.push(v.clone());
+                }
+            }
+            QT::Q(q) => q.iter().for_each(|x| walk(x, out)),
+        }
+    }
+    let mut out = Vec::new();
+    a.iter().for_each(|t| walk(t, &mut out));
+    out
+}
+
+fn q_rename(t: &QT, from: &[String], to: &[&str]) -> QT {
+    match t {
+        QT::C(c) => QT::C(c.clone()),
+        QT::V(v) => QT::V(from.iter().position(|n| n == v).map(|i| to[i].to_string()).unwrap_or_else(|| v.clone())),
+        QT::Q(q) => QT::Q(Box::new([q_rename(&q[0], from, to), q_rename(&q[1], from, to), q_rename(&q[2], from, to)])),
+    }
+}
+
+fn q_rename_atom(a: &QAtom, from: &[String], to: &[&str]) -> QAtom {
+    [q_rename(&a[0], from, to), q_rename(&a[1], from, to), q_rename(&a[2], from, to)]
+}
+
+const Q_RULES: [&[&str]; 5] = [
+    &["<< ?x p ?y >> q ?y :- ?x p ?y"],
+    &["?x q << ?x p ?y >> :- ?x p ?y"],
+    // second rule nests its own conclusions (bounded by the engine's depth limit)
+    &["<< ?x p ?y >> q ?y :- ?x p ?y", "<< ?s q ?o >> q ?o :- ?s q ?o"],
+    // written with engine-like variable names
+    &["<< ?v0 p ?v1 >> q ?v1 :- ?v0 p ?v1"],
+    &["<< ?v1 p ?v10 >> q << ?v10 p ?v1 >> :- ?v1 p ?v10"],
+];
+const Q_FACTS: [&[&str]; 4] = [&["a p b"], &["a p a"], &["a p b", "b p c"], &["a p b", "b p a", "c p b"]];
+/// goal shapes, slots written ?0 ?1 ... Only LINEAR goals (no variable twice): unify_terms has no occurs
+/// check, and a goal that repeats a variable across a quotation boundary (`?x q << ?X p ?x >>` against the
+/// conclusion `<< ?x p ?y >> q ?y`) makes the engine build a cyclic binding and overflow the stack - the
+/// worker process dies, which the statement of C18 does not speak about (observation in the report).
+const Q_GOALS: [&str; 8] = [
+    "<< ?0 p b >> q ?1",
+    "<< ?0 p ?1 >> q ?2",
+    "?0 q ?1",
+    "<< ?0 ?1 ?2 >> ?3 b",
+    "a q << a p ?0 >>",
+    "?0 q << ?1 p ?2 >>",
+    "<< << ?0 p ?1 >> q ?2 >> q ?3",
+    "<< ?0 p ?1 >> q << ?2 p ?3 >>",
+];
+/// the plain naming is x, X, Y, Z in slot order; then names the engine generates (v10: multi-digit)
+const Q_NAMES: [&str; 7] = ["x", "X", "Y", "Z", "v0", "v1", "v10"];
+
+/// every injective naming of k slots over Q_NAMES, the plain one first
+fn q_namings(k: usize) -> Vec<Vec<&'static str>> {
+    let mut out: Vec<Vec<&'static str>> = vec![vec![]];
+    for _ in 0..k {
+        let mut next = Vec::new();
+        for n in &out {
+            for name in Q_NAMES.iter() {
+                if !n.contains(name) {
+                    let mut n2 = n.clone();
+                    n2.push(*name);
+                    next.push(n2);
+                }
+            }
+        }
+        out = next;
+    }
+    out
+}
+
+fn q_to_term(t: &QT, enc: &mut dyn FnMut(&str) -> u32) -> Term {
+    match t {
+        QT::C(c) => Term::Constant(enc(c)),
+        QT::V(v) => Term::Variable(v.clone()),
+        QT::Q(q) => Term::QuotedTriple(Box::new((q_to_term(&q[0], enc), q_to_term(&q[1], enc), q_to_term(&q[2], enc)))),
+    }
+}
+
+/// answers of one goal: for every returned binding the values of the goal's variables in slot order,
+/// resolved through the binding and rendered deeply (unbound goal variables by slot number, unbound
+/// engine-internal variables as `?_`: their names are the engine's business)
+fn q_ask(rules: &[QRule], facts: &[Fact], goal: &QAtom) -> Result<BTreeSet<Vec<String>>, String> {
+    guarded(|| {
+        let mut r = Reasoner::new();
+        let mut names: HashMap<u32, String> = HashMap::new();
+        for f in facts {
+            r.add_abox_triple(&f[0], &f[1], &f[2]);
+        }
+        let dict = r.dictionary.clone();
+        let mut enc = |s: &str| -> u32 {
+            let i = dict.write().unwrap().encode(s);
+            names.insert(i, s.to_string());
+            i
+        };
+        for f in facts {
+            for s in f {
+                enc(s);
+            }
+        }
+        let mut pat = |a: &QAtom, enc: &mut dyn FnMut(&str) -> u32| (q_to_term(&a[0], enc), q_to_term(&a[1], enc), q_to_term(&a[2], enc));
+        for (concl, prem) in rules {
+            let premise = prem.iter().map(|a| pat(a, &mut enc)).collect();
+            let conclusion = concl.iter().map(|a| pat(a, &mut enc)).collect();
+            r.add_rule(shared::rule::Rule { premise, negative_premise: vec![], filters: vec![], conclusion });
+        }
+        let pattern = pat(goal, &mut enc);
+        let gvars = q_vars(goal);
+        let results = r.backward_chaining(&pattern);
+        fn deep(t: &Term, b: &HashMap<String, Term>, gvars: &[String], names: &HashMap<u32, String>) -> String {
+            match resolve_term(t, b) {
+                Term::Constant(c) => names.get(&c).cloned().unwrap_or_else(|| format!("<id {}>", c)),
+                Term::Variable(v) => match gvars.iter().position(|n| *n == v) {
+                    Some(i) => format!("?slot{}", i),
+                    None => "?_".to_string(),
+                },
+                Term::QuotedTriple(q) => format!("<< {} {} {} >>", deep(&q.0, b, gvars, names), deep(&q.1, b, gvars, names), deep(&q.2, b, gvars, names)),
+            }
+        }
+        results.iter().map(|b| gvars.iter().map(|v| deep(&Term::Variable(v.clone()), b, &gvars, &names)).collect()).collect()
+    })
+}
+
+fn q_case_json(rules: &[&str], facts: &[Fact], goal: &QAtom) -> Value {
+    json!({"family": "quoted", "rules": rules, "facts": facts.iter().map(dl::show_fact).collect::<Vec<_>>(), "goal": q_show_atom(goal)})
+}
+
+fn q_tags(goal: &QAtom) -> Vec<String> {
+    let names = q_vars(goal);
+    let mut tags = vec!["family=quoted".to_string(), "goal_has_quoted_triple_or_rule_has".to_string()];
+    tags.push(if names.iter().any(|n| engine_like(n)) { "goal_var_named_v<n>".to_string() } else { "goal_vars_plain".to_string() });
+    if goal.iter().any(|t| matches!(t, QT::Q(_))) {
+        tags.push("goal_quoted_triple".to_string());
+    }
+    tags
+}
+
+/// judge one named goal against the plain naming of the same shape; pushes failures
+fn q_judge(out: &mut ShardOut, rules_txt: &[&str], rules: &[QRule], facts: &[Fact], goal: &QAtom, obs: &Result<BTreeSet<Vec<String>>, String>, plain: Option<&Result<BTreeSet<Vec<String>>, String>>) {
+    let mut verdicts: Vec<(&str, String)> = Vec::new();
+    match obs {
+        Err(p) => verdicts.push(("panic", format!("backward_chaining panicked: {}", p))),
+        Ok(a) => {
+            if let Some(Ok(pa)) = plain {
+                if pa != a {
+                    verdicts.push(("renaming_changes_answers", format!("answers (values of the goal's variables in slot order) differ from those for the plain naming of the same goal: {:?} vs plain {:?}", a, pa)));
+                }
+            }
+        }
+    }
+    if verdicts.is_empty() {
+        return;
+    }
+    // determinism before verdict
+    let again = q_ask(rules, facts, goal);
+    if again != *obs {
+        out.machinery_errors.push(format!("C18 quoted observation not reproducible for {}: {:?} vs {:?}", q_case_json(rules_txt, facts, goal), obs, again));
+        return;
+    }
+    for (sym, detail) in verdicts {
+        out.fail(q_case_json(rules_txt, facts, goal), sym, detail, q_tags(goal));
+    }
+}
+
+fn run_quoted(ctx: &Ctx, out: &mut ShardOut, idx: &mut u64) {
+    for rules_txt in Q_RULES.iter() {
+        let rules: Vec<QRule> = rules_txt.iter().map(|r| q_rule(r)).collect();
+        for fs in Q_FACTS.iter() {
+            *idx += 1;
+            if !ctx.mine(*idx) {
+                continue;
+            }
+            let facts: Vec<Fact> = fs.iter().map(|f| dl::fact(f)).collect();
+            out.count("batches", 1);
+            out.count("batches_quoted", 1);
+            let mut nontrivial = false;
+            for g in Q_GOALS.iter() {
+                let shape = q_atom(g);
+                let slots = q_vars(&shape);
+                let mut plain: Option<Result<BTreeSet<Vec<String>>, String>> = None;
+                for (ni, naming) in q_namings(slots.len()).iter().enumerate() {
+                    let goal = q_rename_atom(&shape, &slots, naming);
+                    if let Some(p) = &ctx.progress {
+                        p.mark(&q_case_json(rules_txt, &facts, &goal).to_string());
+                    }
+                    let obs = q_ask(&rules, &facts, &goal);
+                    out.evaluations += 1;
+                    out.count("goals_quoted", 1);
+                    if let Ok(a) = &obs {
+                        out.outcome(a);
+                        if !a.is_empty() {
+                            out.count("goals_quoted_with_answers", 1);
+                            nontrivial = true;
+                            if a.iter().any(|row| row.iter().any(|v| v.starts_with("<<"))) {
+                                out.count("goals_quoted_binding_a_variable_to_a_quoted_triple", 1);
+                            }
+                        }
+                        if ni == 0 && !a.is_empty() && (*idx + g.len() as u64) % 7 == 0 {
+                            out.sample(json!({"case": q_case_json(rules_txt, &facts, &goal), "family": "quoted", "answers": a}));
+                        }
+                    }
+                    q_judge(out, rules_txt, &rules, &facts, &goal, &obs, plain.as_ref());
+                    if ni == 0 {
+                        plain = Some(obs);
+                    }
+                }
+            }
+            if nontrivial {
+                out.nontrivial(&*idx);
+            }
+        }
+    }
+}
+
+fn replay_quoted(case: &Value) -> ShardOut {
+    let mut out = ShardOut::default();
+    let strs = |k: &str| -> Vec<String> { case[k].as_array().map(|a| a.iter().filter_map(|v| v.as_str().map(|s| s.to_string())).collect()).unwrap_or_default() };
+    let rules_s = strs("rules");
+    let rules_txt: Vec<&str> = rules_s.iter().map(|s| s.as_str()).collect();
+    let rules: Vec<QRule> = rules_txt.iter().map(|r| q_rule(r)).collect();
+    let facts: Vec<Fact> = strs("facts").iter().map(|f| dl::fact(f)).collect();
+    let goal = q_atom(case["goal"].as_str().unwrap_or("?x q ?X"));
+    let slots = q_vars(&goal);
+    let plain_goal = q_rename_atom(&goal, &slots, &Q_NAMES[..slots.len().min(4)]);
+    let plain = q_ask(&rules, &facts, &plain_goal);
+    let obs = q_ask(&rules, &facts, &goal);
+    out.evaluations = 2;
+    // the plain naming itself is judged for panics only
+    q_judge(&mut out, &rules_txt, &rules, &facts, &goal, &obs, if plain_goal == goal { None } else { Some(&plain) });
+    out
 }
 
 fn chain_facts(n: usize) -> Vec<Fact> {
     (0..n).map(|i| [format!("c{}", i), "p".to_string(), format!("c{}", i + 1)]).collect()
 }
 
-/// The enumeration plan of a tier: (program, list of fact sets, all 6-name namings?) in a fixed global order.
-fn plan(thorough: bool) -> Vec<(Vec<usize>, Vec<Vec<usize>>, bool)> {
+/// One entry of the enumeration plan of the "core" family
+struct PlanEntry {
+    program: Vec<usize>,
+    fact_sets: Vec<Vec<usize>>,
+    full_namings: bool,
+    ext_namings: bool,
+}
+
+/// The enumeration plan of a tier in a fixed global order.
+fn plan(thorough: bool) -> Vec<PlanEntry> {
     let curated3: Vec<Vec<usize>> = CURATED.iter().filter(|c| c.len() == 3).map(|c| c.to_vec()).collect();
     let curated4: Vec<Vec<usize>> = CURATED.iter().filter(|c| c.len() == 4).map(|c| c.to_vec()).collect();
     let mut l2c = fact_sets(2);
@@ -822,14 +1292,14 @@ fn plan(thorough: bool) -> Vec<(Vec<usize>, Vec<Vec<usize>>, bool)> {
     let l4 = fact_sets(4);
     let mut v = Vec::new();
     for i in 0..CORE.len() {
-        v.push((vec![i], if thorough { l4.clone() } else { l2c.clone() }, thorough));
+        v.push(PlanEntry { program: vec![i], fact_sets: if thorough { l4.clone() } else { l2c.clone() }, full_namings: thorough, ext_namings: false });
     }
     if thorough {
         for i in 0..CORE.len() {
             for j in 0..CORE.len() {
                 if i != j {
                     let dense = THOROUGH_DENSE_PAIR_CORE.contains(&i) && THOROUGH_DENSE_PAIR_CORE.contains(&j);
-                    v.push((vec![i, j], if dense { l3c.clone() } else { l2c.clone() }, dense));
+                    v.push(PlanEntry { program: vec![i, j], fact_sets: if dense { l3c.clone() } else { l2c.clone() }, full_namings: dense, ext_namings: false });
                 }
             }
         }
@@ -837,12 +1307,28 @@ fn plan(thorough: bool) -> Vec<(Vec<usize>, Vec<Vec<usize>>, bool)> {
         for &i in &QUICK_PAIR_CORE {
             for &j in &QUICK_PAIR_CORE {
                 if i != j {
-                    v.push((vec![i, j], l2c.clone(), false));
+                    v.push(PlanEntry { program: vec![i, j], fact_sets: l2c.clone(), full_namings: false, ext_namings: false });
                 }
             }
         }
     }
     v
+}
+
+/// fact sets of the "names" family (single rules under the extended naming alphabet): quick = the fact
+/// sets of size <= 1 and the curated ones, thorough = size <= 2 and the curated ones
+fn names_fact_sets(thorough: bool) -> Vec<Vec<usize>> {
+    let mut l = fact_sets(if thorough { 2 } else { 1 });
+    l.extend(CURATED.iter().map(|c| c.to_vec()));
+    l
+}
+
+/// fact sets of the "shapes" family: quick = size <= 1 + curated (the curated sets hold the chains,
+/// 2-cycles and self-loops that the 3-premise and the filter rules need), thorough = size <= 3 + curated 4-sets
+fn shapes_fact_sets(thorough: bool) -> Vec<Vec<usize>> {
+    let mut l = fact_sets(if thorough { 3 } else { 1 });
+    l.extend(CURATED.iter().filter(|c| !thorough || c.len() == 4).map(|c| c.to_vec()));
+    l
 }
 
 fn goal_shapes() -> Vec<Shape> {
@@ -858,10 +1344,13 @@ fn run(ctx: &Ctx) -> ShardOut {
     let universe: Vec<Fact> = FACT_UNIVERSE.iter().map(|f| dl::fact(f)).collect();
     let shp = goal_shapes();
     let plan = plan(thorough);
-    out.count("max_programs", plan.len() as u64);
-    out.count("max_planned_batches", plan.iter().map(|p| p.1.len() as u64).sum::<u64>() + 12);
+    let names_fs = names_fact_sets(thorough);
+    let shapes_fs = shapes_fact_sets(thorough);
+    out.count("max_programs", (plan.len() + EXTRA_PROGRAMS.len()) as u64);
+    out.count("max_planned_batches", plan.iter().map(|p| p.fact_sets.len() as u64).sum::<u64>() + 12 + 6 + (Q_RULES.len() * Q_FACTS.len()) as u64 + (CORE.len() * names_fs.len()) as u64 + (EXTRA_PROGRAMS.len() * shapes_fs.len()) as u64);
     out.count("max_goal_shapes", shp.len() as u64);
     out.count("max_goals_per_batch", shp.iter().map(|s| namings(nslots(s), thorough).len() as u64).sum());
+    out.count("max_goals_per_batch_with_extended_names", shp.iter().map(|s| namings_ext(nslots(s), false, true, true).len() as u64).sum());
     out.count("max_step_cap", step_cap);
     let mut idx = 0u64;
 
@@ -879,15 +1368,91 @@ fn run(ctx: &Ctx) -> ShardOut {
             if let Some(p) = &ctx.progress {
                 p.mark(&case_json(&rules, &facts, &dl::atom("?x ?X ?Y")).to_string());
             }
-            if !run_batch(&subject, &mut out, &rules, &facts, &chain_shapes, thorough, step_cap, "chain", idx) {
+            let bo = BatchOpts { shapes: &chain_shapes, full_namings: thorough, ext_namings: false, base_plain_only: false, step_cap, stage_bound: STAGE_BOUND, family: "chain" };
+            if !run_batch(&subject, &mut out, &rules, &facts, &bo, idx) {
+                return out;
+            }
+        }
+    }
+
+    // family "deep": the depth boundary. p-chains of 9, 10 and 11 edges under right-linear recursion
+    // (cost O(length^2) per goal, no blow-up): q-facts of stage 9 are demanded (STAGE_BOUND_DEEP), those of
+    // stage 10 and 11 are only checked for soundness. Goals over the chain ends c0/c2 and c9/c10/c11.
+    let deep_programs: [[usize; 2]; 2] = [[0, 12], [12, 0]];
+    let deep_shapes = shapes(&["c0", "c2"], &["q"], &["c9", "c10", "c11"]);
+    for len in [9usize, 10, 11] {
+        for cp in &deep_programs {
+            idx += 1;
+            if !ctx.mine(idx) {
+                continue;
+            }
+            let rules: Vec<Rule> = cp.iter().map(|i| core[*i].clone()).collect();
+            let facts = chain_facts(len);
+            if let Some(p) = &ctx.progress {
+                p.mark(&case_json(&rules, &facts, &dl::atom("?x ?X ?Y")).to_string());
+            }
+            let bo = BatchOpts { shapes: &deep_shapes, full_namings: thorough, ext_namings: true, base_plain_only: false, step_cap: STEP_CAP_DEEP, stage_bound: STAGE_BOUND_DEEP, family: "deep" };
+            if !run_batch(&subject, &mut out, &rules, &facts, &bo, idx) {
+                return out;
+            }
+        }
+    }
+
+    // family "quoted": quoted-triple goals and rules, judged by renaming invariance and panic-freedom
+    run_quoted(ctx, &mut out, &mut idx);
+
+    // family "names": every single rule of the core under the extended naming alphabet
+    for pi in 0..CORE.len() {
+        let rules = vec![core[pi].clone()];
+        for fs in &names_fs {
+            idx += 1;
+            if !ctx.mine(idx) {
+                continue;
+            }
+            if ctx.expired() {
+                out.capped.push(format!("wall-clock cap: a shard stopped in family names at rule {} of {}; its earlier batches are complete", pi, CORE.len()));
+                note_skips(&mut out);
+                return out;
+            }
+            let facts: Vec<Fact> = fs.iter().map(|i| universe[*i].clone()).collect();
+            if let Some(p) = &ctx.progress {
+                p.mark(&case_json(&rules, &facts, &dl::atom("?x ?X ?Y")).to_string());
+            }
+            let bo = BatchOpts { shapes: &shp, full_namings: false, ext_namings: true, base_plain_only: true, step_cap, stage_bound: STAGE_BOUND, family: "names" };
+            if !run_batch(&subject, &mut out, &rules, &facts, &bo, idx) {
+                return out;
+            }
+        }
+    }
+
+    // family "shapes": programs outside the core (3 premises, ground conclusions, 3 rules, filters)
+    for (pi, (prog, ext)) in EXTRA_PROGRAMS.iter().enumerate() {
+        let rules: Vec<Rule> = prog.iter().map(|r| dl::rule(r)).collect();
+        for fs in &shapes_fs {
+            idx += 1;
+            if !ctx.mine(idx) {
+                continue;
+            }
+            if ctx.expired() {
+                out.capped.push(format!("wall-clock cap: a shard stopped in family shapes at program {} of {}; its earlier batches are complete", pi, EXTRA_PROGRAMS.len()));
+                note_skips(&mut out);
+                return out;
+            }
+            let facts: Vec<Fact> = fs.iter().map(|i| universe[*i].clone()).collect();
+            if let Some(p) = &ctx.progress {
+                p.mark(&case_json(&rules, &facts, &dl::atom("?x ?X ?Y")).to_string());
+            }
+            let bo = BatchOpts { shapes: &shp, full_namings: thorough, ext_namings: *ext, base_plain_only: false, step_cap, stage_bound: STAGE_BOUND, family: "shapes" };
+            if !run_batch(&subject, &mut out, &rules, &facts, &bo, idx) {
                 return out;
             }
         }
     }
 
     // family "core": programs x fact sets
-    for (pi, (prog, fsets, full_namings)) in plan.iter().enumerate() {
-        let rules: Vec<Rule> = prog.iter().map(|i| core[*i].clone()).collect();
+    for (pi, pe) in plan.iter().enumerate() {
+        let rules: Vec<Rule> = pe.program.iter().map(|i| core[*i].clone()).collect();
+        let fsets = &pe.fact_sets;
         for (fi, fs) in fsets.iter().enumerate() {
             idx += 1;
             if !ctx.mine(idx) {
@@ -902,7 +1467,8 @@ fn run(ctx: &Ctx) -> ShardOut {
             if let Some(p) = &ctx.progress {
                 p.mark(&case_json(&rules, &facts, &dl::atom("?x ?X ?Y")).to_string());
             }
-            if !run_batch(&subject, &mut out, &rules, &facts, &shp, *full_namings, step_cap, "core", idx) {
+            let bo = BatchOpts { shapes: &shp, full_namings: pe.full_namings, ext_namings: pe.ext_namings, base_plain_only: false, step_cap, stage_bound: STAGE_BOUND, family: "core" };
+            if !run_batch(&subject, &mut out, &rules, &facts, &bo, idx) {
                 return out;
             }
         }
@@ -919,6 +1485,9 @@ fn note_skips(out: &mut ShardOut) {
 }
 
 fn replay(ctx: &Ctx, case: &Value) -> ShardOut {
+    if case["family"].as_str() == Some("quoted") {
+        return replay_quoted(case);
+    }
     let mut out = ShardOut::default();
     let strs = |k: &str| -> Vec<String> { case[k].as_array().map(|a| a.iter().filter_map(|v| v.as_str().map(|s| s.to_string())).collect()).unwrap_or_default() };
     let rules: Vec<Rule> = strs("rules").iter().map(|r| dl::rule(r)).collect();
@@ -928,7 +1497,11 @@ fn replay(ctx: &Ctx, case: &Value) -> ShardOut {
     let plain_goal = name_shape(&sh, &namings(names.len(), true)[0]);
     let fset: BTreeSet<Fact> = facts.iter().cloned().collect();
     let model = dl::least_model(&fset, &rules);
-    let cap = if ctx.thorough() { STEP_CAP_THOROUGH } else { STEP_CAP_QUICK } * 10;
+    let model_nf = if has_filters(&rules) { Some(dl::least_model(&fset, &strip_filters(&rules))) } else { None };
+    // bounds recorded with the case (families with their own stage bound / step cap)
+    let stage_bound = case["stage_bound"].as_u64().map(|x| x as usize).unwrap_or(STAGE_BOUND);
+    let rf = Reference { model: &model, stage_bound, model_without_filters: model_nf.as_ref() };
+    let cap = (if ctx.thorough() { STEP_CAP_THOROUGH } else { STEP_CAP_QUICK } * 10).max(case["step_cap"].as_u64().unwrap_or(0));
     if SldCost::cost(&rules, &fset, &sh, cap).is_none() {
         out.capped.push("replay: predicted cost above 10x the step cap, goal not executed".into());
         return out;
@@ -944,10 +1517,13 @@ fn replay(ctx: &Ctx, case: &Value) -> ShardOut {
     out.evaluations = 2;
     let expected = expected_for(&goal, &model);
     let is_plain = plain_goal == goal;
-    let verdicts = judge(&obs[1], &model, &expected, if is_plain { None } else { Some(&obs[0]) });
-    let plain_ok = if is_plain { None } else { Some(judge(&obs[0], &model, &expected, None).is_empty()) };
+    let verdicts = judge(&obs[1], &rf, &expected, if is_plain { None } else { Some(&obs[0]) });
+    let plain_ok = if is_plain { None } else { Some(judge(&obs[0], &rf, &expected, None).is_empty()) };
+    let bo = BatchOpts { shapes: &[], full_namings: false, ext_namings: false, base_plain_only: false, step_cap: case["step_cap"].as_u64().unwrap_or(0), stage_bound, family: "replay" };
     for vd in verdicts {
-        out.fail(case_json(&rules, &facts, &goal), vd.symptom, vd.detail, tags_for(&rules, &goal, plain_ok));
+        let mut tags = tags_for(&rules, &goal, plain_ok);
+        tags.extend(vd.extra_tags.iter().cloned());
+        out.fail(case_json_b(&rules, &facts, &goal, &bo), vd.symptom, vd.detail, tags);
     }
     out
 }
